@@ -483,7 +483,7 @@ fn gen_huge(out: &mut dyn FnMut(String), rng: &mut Rng, thorough: bool) {
     for &len in &lens {
         let t = format!("i{}+{}", len, -(len as i64) / 2 - 1);
         let full = thorough || len <= 20011;   // the model driver needs ~1.5 us per element and case: above 20 011 four forms per length in the quick tier
-        out(format!("norm {t} none none none")); if full || len % 2 == 0 { out(format!("norm {t} i2 none none")); }
+        out(format!("norm {t} none none none")); if full || (len % 2 == 0 && len < 100000) { out(format!("norm {t} i2 none none")); }
         if full { out(format!("norm {t} s{} none none", hex("2"))); out(format!("norm {t} none none true")); }
         if len <= 70001 { if full || len == 33001 { out(format!("xnorm {t} none none none i64/1/1")); } if full { out(format!("xnorm {t} i2 none none f64/2^-30/1")); } }
         // the same count as a matrix: default and Frobenius
@@ -515,7 +515,7 @@ fn gen_huge(out: &mut dyn FnMut(String), rng: &mut Rng, thorough: bool) {
             // lane reductions (quadratic in the model driver)
             for o in ["i1", "inf", "ninf", "i0", "i3"] { if thorough || len <= 12001 || (o == "i1" && len != 18001) { out(format!("norm {a} {o} none none")); } }
             if thorough || len <= 16385 { out(format!("norm {a} i2 0 none")); }
-            if thorough || len <= 13500 || len == 20011 { out(format!("norm {a} i1 -1 true")); }
+            if thorough || len <= 13500 { out(format!("norm {a} i1 -1 true")); }
         }
         if len == 13500 {
             let s = show_shape(&[1500, 3, 3], &vals);
@@ -528,7 +528,7 @@ fn gen_huge(out: &mut dyn FnMut(String), rng: &mut Rng, thorough: bool) {
         let cnt: usize = shape.iter().product();
         let a = show_shape(&shape, &nonzero_vals(rng, cnt));
         for (o, ax) in [("i1", "0"), ("i2", "1"), ("inf", "-1"), ("ninf", "0"), ("i0", "1"), ("i1", "0,1"), ("inf", "0,1"), ("i1", "1,0"), ("i-1", "0,1"), ("fro", "none"), ("none", "none")] {
-            if !thorough && shape[0] == 129 && !(ax == "0" || ax == "1" || o == "inf") { continue }
+            if !thorough && shape[0] == 129 && !((o == "i1" && ax == "0") || ax == "1" && o == "i2" || ax == "0,1" && o == "inf") { continue }
             if !thorough && shape[0] == 130 && (o == "i-1" || o == "ninf") { continue }
             out(format!("norm {a} {o} {ax} none"));
         }
@@ -538,6 +538,37 @@ fn gen_huge(out: &mut dyn FnMut(String), rng: &mut Rng, thorough: bool) {
         let e: Vec<i64> = (0..cnt).flat_map(|t| { let m = if t % 5 == 4 { pivot_forcing(rng, n) } else { rand_conditioned(rng, n) }; m.into_iter().flatten().collect::<Vec<i64>>() }).collect();
         let a = show_shape(&[cnt, n, n], &e);
         out(format!("det {a}")); out(format!("qr {a}")); out(format!("norm {a} none none none")); out(format!("norm {a} i1 1,2 none"));
+    }
+}
+
+/// regions that the model covers since `ArrModel/C15Ext.lean`: 0-dimensional right-hand sides of solve and 0-dimensional receivers of
+/// norm / det (spelled `-:v`), negative orders of the one-axis arm on every axis of rank 1..3 arrays with and without a zero in the
+/// lane (`0^negative = inf`, `inf^(1/p) = 0`), the one-axis arm under keepdims, matrix norms of stacks on every ordered axis pair
+fn gen_ext(out: &mut dyn FnMut(String)) {
+    for a in ["2,2:1,2,3,4", "2,2:1,2,2,4", "2,2:0,0,0,0", "3,3:2,0,1,1,3,0,0,1,4", "2,3:1,2,3,4,5,6", "2:1,2", "-:3", "2,2,2:1,0,0,1,2,1,1,3", "1,1:5", "0,0:-"] {
+        for b in ["-:5", "-:0", "-:-7"] { out(format!("solve {a} {b}")); }
+    }
+    out("xsolve 2,2:1,2,3,4 -:5 f64/2^-30/1".into()); out("xsolve 2,2:1,2,3,4 -:5 i32/1/1".into()); out("xsolve 2:1,2 -:5 f32/1/1".into());
+    let ords = ["none", "i0", "i1", "i2", "i3", "i4", "i-1", "i-2", "i-3", "inf", "ninf", "fro", "nuc"];
+    for a in ["-:5", "-:0", "-:-3"] {
+        out(format!("det {a}")); out(format!("qr {a}"));
+        for o in ords { for ax in ["none", "0", "-1", "1", "0,1", "-"] { for k in ["none", "true"] { out(format!("norm {a} {o} {ax} {k}")); } } }
+    }
+    let arrays: [(&[usize], &[i64]); 8] = [
+        (&[1], &[0]), (&[3], &[1, -2, 2]), (&[4], &[3, 0, -4, 1]), (&[2, 3], &[1, -2, 3, -4, 5, -6]), (&[3, 2], &[0, 7, -7, 1, 2, -9]),
+        (&[2, 2, 3], &[1, -2, 3, -4, 5, -6, 7, -8, 9, 0, -1, 2]), (&[2, 3, 2], &[5, 0, -3, 3, 1, -1, 8, -8, 2, 4, -6, 0]), (&[3, 1, 2], &[1, 2, -3, -4, 5, 6]),
+    ];
+    for (shape, elems) in arrays {
+        let a = show_shape(shape, elems);
+        let nd = shape.len() as i64;
+        for o in ["i-1", "i-2", "i-3", "i-4", "i5"] {
+            for ax in -nd - 1..=nd { for k in ["none", "true", "false"] { out(format!("norm {a} {o} {ax} {k}")); } }
+            out(format!("norm {a} {o} none none"));
+            out(format!("norm {a} s{} {} none", hex(&o[1..]), nd - 1));
+        }
+        for sc in ["2^-30", "10^9"] { out(format!("xnorm {a} i-1 -1 none f64/{sc}/1")); out(format!("xnorm {a} i-2 0 none f64/{sc}/1")); }
+        out(format!("xnorm {a} i-1 0 none f32/1/1")); out(format!("xnorm {a} i-2 -1 none i32/1/1"));
+        if nd == 3 { for a0 in 0..3 { for a1 in 0..3 { for o in ["i1", "i-1", "inf", "ninf"] { for k in ["none", "true"] { out(format!("norm {a} {o} {a0},{a1} {k}")); } } } } }
     }
 }
 
@@ -561,6 +592,7 @@ fn gen(tier: &str, seed: u64, out: &mut dyn FnMut(String)) {
     out("solve 3,3:5,-1,0,1,6,2,2,1,7 3:1,2,3".into());
     out("norm i12001+-6001 none none none".into());
     out("norm i1500,3,3+-6751 none none none".into());
+    gen_ext(out);
     // ---- exhaustive small scope
     // every 2x2 matrix over -2..2: det, elimination, row exchange, product with a fixed partner, solve (vector, 1, 2, 3 columns), qr
     let fixed: M = vec![vec![2, -1], vec![1, 3]];
@@ -716,7 +748,9 @@ fn exec_solve(args: &[&str], expected: &str) -> Option<Verdict> {
     let (a, b) = (arr_f64(args[0])?, arr_f64(args[1])?);
     if b.ndim().ok()? == 0 { // `other.get_shape()[0]` on a 0-d right-hand side: the outcome class belongs to C09, not to this property
         let o = guarded(|| show_res(&a.solve(&b), show_f));
-        return Some(Verdict::Open(o));
+        // modelled (`Res.idx b.shape 0` of solveArr; theorem solve_zero_dim_rhs): a square matrix -> the index panics, otherwise the
+        // validation error that comes first.  The outcome CLASS is compared (that it ought to be an error value is C09's business).
+        return Some(compare_default(o, expected));
     }
     let real = match std::panic::catch_unwind(std::panic::AssertUnwindSafe(|| a.solve(&b))) { Ok(r) => r, Err(_) => return Some(compare_default("panic".into(), expected)) };
     if let Some(d) = recv_arr(&real, || { let r: Result<Array<f64>, ArrayError> = Ok(a.clone()); r.solve(&b) }) { return Some(d) }
@@ -827,8 +861,8 @@ fn exec_norm(args: &[&str], expected: &str) -> Option<Verdict> {
     if let Some(d) = recv_arr(&real, || { let r: Result<Array<f64>, ArrayError> = Ok(a.clone()); call_norm(&r, args[1], &axis, keep) }) { return Some(d) }
     let observed = show_res(&real, show_f);
     if expected == "open" { return Some(Verdict::Open(observed)) }
-    // an empty operand is outside the model (it sums / maximises nothing and answers 0; the crate refuses): only "no panic" is compared
-    if a.get_elements().unwrap().is_empty() { return Some(Verdict::Open(observed)) }
+    // an empty operand is modelled since `normX` (ArrModel/C15Ext.lean: the reductions of the shared C08 model refuse / answer 0
+    // exactly as the crate does, `is_broadcastable` refuses a zero-length axis): compared in full like every other case
     match &real {
         Err(_) => Some(compare_default(observed, expected)),
         Ok(r) => {
@@ -836,7 +870,7 @@ fn exec_norm(args: &[&str], expected: &str) -> Option<Verdict> {
             let Some(body) = expected.strip_prefix("ok ") else { return mismatch(observed, format!("model says `{}`", expected)) };
             let (sh, el) = body.split_once(':')?;
             let shape = parse_usize_list(sh);
-            let vals: Vec<(f64, bool)> = el.split(',').map(sym_val).collect::<Option<Vec<_>>>()?;
+            let vals: Vec<(f64, bool)> = if el == "-" { vec![] } else { el.split(',').map(sym_val).collect::<Option<Vec<_>>>()? };
             let (rs, re) = (r.get_shape().unwrap(), r.get_elements().unwrap());
             if rs != shape { return mismatch(observed, format!("shape: model {:?}", shape)) }
             for (p, (&c, &(m, tight))) in re.iter().zip(&vals).enumerate() {
@@ -1023,7 +1057,7 @@ fn x_det<T: El>(a_s: &str, v: &Variant, expected: &str) -> Option<Verdict> {
 
 fn x_solve<T: El>(a_s: &str, b_s: &str, v: &Variant, expected: &str) -> Option<Verdict> {
     let (a, b) = (arr_t::<T>(a_s, v.sa.v)?, arr_t::<T>(b_s, v.sb.v)?);
-    if b.ndim().ok()? == 0 { return Some(Verdict::Open(guarded(|| show_res(&a.solve(&b), show_t)))) }
+    if b.ndim().ok()? == 0 { return Some(compare_default(guarded(|| show_res(&a.solve(&b), show_t)), expected)) }
     let real = match std::panic::catch_unwind(std::panic::AssertUnwindSafe(|| a.solve(&b))) { Ok(r) => r, Err(_) => return Some(compare_default("panic".into(), expected)) };
     if let Some(d) = recv_arr(&real, || { let r: Result<Array<T>, ArrayError> = Ok(a.clone()); r.solve(&b) }) { return Some(d) }
     let (ash, aints) = parse_arr_raw(a_s);
@@ -1073,6 +1107,8 @@ fn x_solve<T: El>(a_s: &str, b_s: &str, v: &Variant, expected: &str) -> Option<V
 }
 
 /// the order argument in its three spellings: enum (`inf`, `i2`, …), `&str` (`s<hex>`), `String` (`S<hex>`)
+fn hex_text(h: &str) -> String { String::from_utf8((0..h.len() / 2).filter_map(|i| u8::from_str_radix(h.get(2 * i..2 * i + 2)?, 16).ok()).collect()).unwrap_or_default() }
+
 fn call_norm<T: El, R: ArrayLinalgNorms<T>>(recv: &R, o: &str, axis: &Option<Vec<isize>>, keep: Option<bool>) -> Result<Array<T>, ArrayError> {
     let unhex = |h: &str| -> String { String::from_utf8((0..h.len() / 2).map(|i| u8::from_str_radix(&h[2 * i..2 * i + 2], 16).unwrap()).collect()).unwrap() };
     if o == "none" { recv.norm(None::<NormOrd>, axis.clone(), keep) }
@@ -1088,14 +1124,18 @@ fn x_norm<T: El>(args: &[&str], v: &Variant, expected: &str) -> Option<Verdict> 
     let a = arr_t::<T>(args[0], v.sa.v)?;
     let axis: Option<Vec<isize>> = if args[2] == "none" { None } else { Some(parse_isize_list(args[2])) };
     let keep: Option<bool> = match args[3] { "none" => None, "true" => Some(true), "false" => Some(false), _ => return None };
+    let neg_ord = args[1].strip_prefix('i').and_then(|t| t.parse::<i64>().ok()).or_else(|| args[1].strip_prefix(['s', 'S']).and_then(|h| hex_text(h).parse::<i64>().ok())).map_or(false, |p| p < 0);
+    let neg_int = neg_ord && (v.ty == "i32" || v.ty == "i64");
     let real = match std::panic::catch_unwind(std::panic::AssertUnwindSafe(|| call_norm(&a, args[1], &axis, keep))) { Ok(r) => r, Err(_) => {
-        if expected == "open" { return Some(Verdict::Open("panic".into())) }
+        // integer element type, negative order, a zero in the array: `N::from(f64::INFINITY)` panics (fixes/C15-norm-negative-order-integer-panic.md)
+        if expected == "open" || neg_int { return Some(Verdict::Open("panic".into())) }
         return Some(compare_default("panic".into(), expected)) } };
     if let Some(d) = recv_arr(&real, || { let r: Result<Array<T>, ArrayError> = Ok(a.clone()); call_norm(&r, args[1], &axis, keep) }) { return Some(d) }
     let observed = show_res(&real, show_t);
     if expected == "open" { return Some(Verdict::Open(observed)) }
-    // an empty operand is outside the model (it sums / maximises nothing and answers 0; the crate refuses): only "no panic" is compared
-    if a.get_elements().unwrap().is_empty() { return Some(Verdict::Open(observed)) }
+    // an empty operand is modelled since `normX` (see exec_norm): compared in full.  Negative orders of the one-axis arm on the INTEGER
+    // element types stay open: `N::from` truncates 1/|x| to 0 between the two `float_power` calls, which the rational model does not do
+    if neg_int { return Some(Verdict::Open(observed)) }
     match &real {
         Err(_) => Some(compare_default(observed, expected)),
         Ok(r) => {
@@ -1103,7 +1143,7 @@ fn x_norm<T: El>(args: &[&str], v: &Variant, expected: &str) -> Option<Verdict> 
             let Some(body) = expected.strip_prefix("ok ") else { return mismatch(observed, format!("model says `{}`", expected)) };
             let (sh, el) = body.split_once(':')?;
             let shape = parse_usize_list(sh);
-            let vals: Vec<(f64, bool)> = el.split(',').map(sym_val).collect::<Option<Vec<_>>>()?;
+            let vals: Vec<(f64, bool)> = if el == "-" { vec![] } else { el.split(',').map(sym_val).collect::<Option<Vec<_>>>()? };
             let (rs, re) = (r.get_shape().unwrap(), r.get_elements().unwrap());
             if rs != shape { return mismatch(observed, format!("shape: model {:?}", shape)) }
             if re.len() != vals.len() { return mismatch(observed, format!("{} elements, the model has {}", re.len(), vals.len())) }
@@ -1250,5 +1290,5 @@ fn nontrivial(op: &str, args: &[&str]) -> bool {
 
 fn main() {
     harness_main(Spec { prop: "C15", gen, exec, nontrivial, hang_secs: 30,
-        rule: "integer matrices |x|<=9 as f64. exhaustive: all 2x2 over -2..2 and all 3x3 over -1..1 (det, elimination, exchange, product, solve with 1..3 columns, qr; quick: solve/qr on every 4th 3x3), 4x4 over {0,1} (all thorough / every 16th quick); families n=2..6: cond_inf<=1e4 random, row-permuted diagonally dominant, upper/lower triangular, pivot-forcing (zero/small leading entry), exactly singular, stacks [s,n,n] [s,t,n,n]; norm: every order spelling x axis spelling x keepdims on 14 fixed arrays rank<=3; malformed shapes; seeded random stream. robustness streams: EVERY call also on Ok(array) (bit-identical answer required); x-ops = same integer array as f64/f32/i32/i64 times an exact scale 2^+-30 2^+-40 10^+-9 10^+-12 (qr/norm also 2^+-200), model evaluated at the scaled rationals, tolerances relative to the unit of the answer (s^n det, s norm/R, sb/sa solve, 1 Q); norm of 63..4900 elements (every count mod 8, all orders, enum/&str/String spellings, axes, keepdims); n=7,8 families; singular n=2..8 in five recipes (last-pivot deficiency included); stacks with leading axes 7..40 (300 thorough); zero-length axes (det/qr/solve compared, norm of an empty array only must not panic). open: scaled solve where the absolute |det|<1e-12 test decides (fixes/C15-solve-absolute-singularity-threshold.md). tolerance 1e-9 relative (model vs code and residual oracles). non-trivial = solve needing a row exchange in column 0 or >=2 right-hand sides; det/qr of size>=3 or a stack; norm with explicit order/axis or rank>=2" });
+        rule: "integer matrices |x|<=9 as f64. exhaustive: all 2x2 over -2..2 and all 3x3 over -1..1 (det, elimination, exchange, product, solve with 1..3 columns, qr; quick: solve/qr on every 4th 3x3), 4x4 over {0,1} (all thorough / every 16th quick); families n=2..6: cond_inf<=1e4 random, row-permuted diagonally dominant, upper/lower triangular, pivot-forcing (zero/small leading entry), exactly singular, stacks [s,n,n] [s,t,n,n]; norm: every order spelling x axis spelling x keepdims on 14 fixed arrays rank<=3; malformed shapes; seeded random stream. robustness streams: EVERY call also on Ok(array) (bit-identical answer required); x-ops = same integer array as f64/f32/i32/i64 times an exact scale 2^+-30 2^+-40 10^+-9 10^+-12 (qr/norm also 2^+-200), model evaluated at the scaled rationals, tolerances relative to the unit of the answer (s^n det, s norm/R, sb/sa solve, 1 Q); norm of 63..4900 elements (every count mod 8, all orders, enum/&str/String spellings, axes, keepdims); n=7,8 families; singular n=2..8 in five recipes (last-pivot deficiency included); stacks with leading axes 7..40 (300 thorough); zero-length axes (det/qr/solve and norm compared in full); 0-d operands, negative vector orders, matrix norms of rank-3 arrays on every ordered axis pair (gen_ext; norm cases up to 300 elements answered by normX over the shared C08 reductions and cross-checked with the lane form). part-2 streams: every matrix directly followed by its look-alikes (transpose, P A P^T, 180-degree rotation, anti-transpose, row / column permutation, same multiset rearranged; original again after each) through solve / det / qr / norm, as stacks, and with the same arguments on f64 f32 i32 i64 back to back; refused-then-valid calls; collision_shape_pairs A,B,A for norm and colliding leading axes for det / qr; A-B-A re-run of the previous case on every third case; norm of 8 193 ... 131 073 elements (counts not multiples of 1000 / 4096 / 6000; whole-array forms on tags to 140 000, digit vectors on f64 f32 i32 i64, lane reductions and axis forms to 20 011, stacks of 1500 / 2001 / 4100 matrices) answered by the model driver itself. open: scaled solve where the absolute |det|<1e-12 test decides (fixes/C15-solve-absolute-singularity-threshold.md). tolerance 1e-9 relative (model vs code and residual oracles). non-trivial = solve needing a row exchange in column 0 or >=2 right-hand sides; det/qr of size>=3 or a stack; norm with explicit order/axis or rank>=2" });
 }
